@@ -397,21 +397,7 @@ pub fn scenario(id: &str) -> Option<Box<dyn Scenario>> {
         "C07" => Box::new(crate::crash::CrashScenario { mode: crate::crash::Mode::C07 }),
         "C08" => Box::new(crate::crash::CrashScenario { mode: crate::crash::Mode::C08 }),
         "C09" => Box::new(crate::crash::CrashScenario { mode: crate::crash::Mode::C09 }),
-        "C04" => Box::new(SeqScenario {
-            id: "C04",
-            opts: |_s| {
-                let mut o = SeqOpts::base("C04", "reject");
-                o.w = [25, 12, 12, 12, 4, 0, 0, 0, 25, 1];
-                o.ops = (5, 40);
-                o.incarnations = (1, 2);
-                o.alo_p = 0.0;
-                o
-            },
-            owns: &["c04."],
-            rule: "histories in which rejected appends (over 2000 entries, over the byte cap, oversized entry alone or inside a batch, topic name too long for the header, empty batch) are interleaved with successful ones; a failed operation leaves the reference model untouched, and every later read, count and the reads after a clean restart in a fresh process must agree with it; non-trivial = at least one operation returned an error",
-            trigger: has_failed_op,
-            relabel: Some((&["c01.", "c15.", "c03.no_progress", "c06."], "c04")),
-        }),
+        "C04" => Box::new(C04Scenario),
         _ => return None,
     })
 }
@@ -1037,5 +1023,232 @@ impl Scenario for MultiScenario {
             solos.push((*i, run_plan(&env.bins, &solo_plan(plan, *i), &RunOpts::default())));
         }
         (judge_multi(plan, &together, &solos), history_hash(&together))
+    }
+}
+
+// ---------------------------------------------------------------------------
+// C04 (composite): rejected operations | injected I/O failures | concurrent readers vs batches
+// ---------------------------------------------------------------------------
+pub struct C04Scenario;
+
+fn c04_reject() -> SeqScenario {
+    SeqScenario {
+        id: "C04",
+        opts: |_s| {
+            let mut o = SeqOpts::base("C04", "reject");
+            o.w = [25, 12, 12, 12, 4, 0, 0, 0, 25, 1];
+            o.ops = (5, 40);
+            o.incarnations = (1, 2);
+            o.alo_p = 0.0;
+            o
+        },
+        owns: &["c04."],
+        rule: "",
+        trigger: has_failed_op,
+        relabel: Some((&["c01.", "c15.", "c03.no_progress", "c06."], "c04")),
+    }
+}
+
+fn iofault_opts(_s: u64) -> SeqOpts {
+    let mut o = SeqOpts::base("C04", "iofault");
+    o.w = [30, 18, 14, 14, 4, 0, 0, 0, 0, 1];
+    o.ops = (6, 36);
+    o.incarnations = (2, 2);
+    o.alo_p = 0.0;
+    o.p_real = 0.0;
+    o
+}
+
+fn relabel_c04(fs: Vec<Finding>) -> Vec<Finding> {
+    fs.into_iter()
+        .filter_map(|mut f| {
+            if ["c01.", "c15.", "c03.no_progress", "c06."].iter().any(|p| f.rule.starts_with(p)) {
+                f.rule = format!("c04.{}", f.rule.replace('.', "_"));
+                Some(f)
+            } else if f.rule.starts_with("c04.") {
+                Some(f)
+            } else {
+                None
+            }
+        })
+        .collect()
+}
+
+/// Facts about the injected failure of an iofault run (same in search and replay).
+fn iofault_facts(plan: &Plan, rr: &RunResult) -> Vec<(&'static str, serde_json::Value)> {
+    let ops = index_ops(plan);
+    let fault = plan.incarnations[0].faults.first();
+    let kind = rr.incs.first().and_then(|i| i.events.iter().find(|e| e.t == "fault")).and_then(|e| e.msg.clone()).unwrap_or_default();
+    let fault_kind = ["Create", "SetLen", "FileFsync", "DirFsync", "Flush", "CreateDir", "Store"].iter().find(|k| kind.ends_with(*k)).copied().unwrap_or("UringSubmit");
+    let name = match fault.map(|f| &f.act) {
+        Some(Act::UringFailSubmit { .. }) => "uring_fail_submit",
+        Some(Act::UringCqe { res, .. }) if *res < 0 => "uring_cqe_error",
+        Some(Act::UringCqe { .. }) => "uring_cqe_short",
+        Some(Act::Fail { .. }) if fault_kind == "Store" => "fail_store",
+        Some(Act::Fail { .. }) => "fail_io",
+        _ => "none",
+    };
+    let (faulted_op, op_id) = match fault.map(|f| &f.sel) {
+        Some(Sel::InOp { op, .. }) => (ops.get(op).map(|o| api_name(&o.kind)).unwrap_or("?"), *op),
+        _ => ("?", 0),
+    };
+    let op_failed = rr.incs.first().map(|i| i.events.iter().any(|e| e.t == "ret" && e.op == Some(op_id) && e.res.as_ref().map(|r| r.k != "ok").unwrap_or(false))).unwrap_or(false);
+    vec![
+        ("fault", serde_json::json!(name)),
+        ("fault_kind", serde_json::json!(fault_kind)),
+        ("faulted_op", serde_json::json!(faulted_op)),
+        ("op_failed", serde_json::json!(op_failed)),
+        ("backend", serde_json::json!(plan.incarnations[0].backend)),
+    ]
+}
+
+impl C04Scenario {
+    fn run_iofault(&self, seed_r: u64, env: &Env) -> Outcome {
+        let mut out = Outcome::default();
+        let base = gen_seq(seed_r, &iofault_opts(seed_r));
+        let mut rng = crate::rng::Rng::new(crate::rng::mix(seed_r, 0x10FA));
+        let rr0 = run_plan(&env.bins, &base, &RunOpts::default());
+        out.executions += rr0.incs.len() as u64;
+        out.digest = history_hash(&rr0);
+        if rr0.incs.len() != base.incarnations.len() {
+            return out;
+        }
+        let ops = index_ops(&base);
+        // I/O events performed by append operations of the first incarnation
+        let mut per_op: BTreeMap<(u32, u32), u32> = BTreeMap::new();
+        let mut points: Vec<(u32, u32, String, u64)> = Vec::new(); // (op, nth, kind, len)
+        for e in rr0.incs[0].events.iter().filter(|e| e.t == "io") {
+            let (Some(op), Some(io)) = (e.op, e.io.as_ref()) else { continue };
+            let c = per_op.entry((op, e.th)).or_insert(0);
+            *c += 1;
+            if matches!(ops.get(&op).map(|o| &o.kind), Some(OpKind::Append { .. }) | Some(OpKind::BatchAppend { .. })) {
+                points.push((op, *c, io.kind.clone(), io.len));
+            }
+        }
+        let backend = base.incarnations[0].backend.clone();
+        let cap = if env.thorough { 64 } else { 12 };
+        while points.len() > cap {
+            let i = rng.below(points.len() as u64) as usize;
+            points.remove(i);
+        }
+        let mut sampled = false;
+        for (op, nth, kind, len) in points {
+            let mut acts: Vec<(Act, &str)> = Vec::new();
+            match kind.as_str() {
+                "UringSubmit" => {
+                    acts.push((Act::UringFailSubmit { errno: 5 }, "uring_fail_submit"));
+                    let idx = rng.below(len.max(1));
+                    acts.push((Act::UringCqe { idx, res: -5 }, "uring_cqe_error"));
+                    acts.push((Act::UringCqe { idx, res: 100 }, "uring_cqe_short"));
+                }
+                "Store" => {
+                    if backend == "fd" {
+                        acts.push((Act::Fail { errno: 5 }, "fail_store"));
+                    }
+                }
+                "Create" | "SetLen" | "FileFsync" | "DirFsync" | "Flush" | "CreateDir" => {
+                    acts.push((Act::Fail { errno: *rng.pick(&[5, 28]) }, "fail_io"));
+                }
+                _ => {}
+            }
+            for (act, name) in acts {
+                if std::time::Instant::now() >= env.deadline {
+                    return out;
+                }
+                let mut plan = base.clone();
+                plan.incarnations[0].faults = vec![Fault { sel: Sel::InOp { op, nth }, act }];
+                let rr = run_plan(&env.bins, &plan, &RunOpts::default());
+                out.executions += rr.incs.len() as u64;
+                absorb_summary(&mut out, &rr);
+                out.stat("sim_clock_ms", sim_clock_ms(&rr, &plan));
+                let fired = rr.incs[0].events.iter().any(|e| e.t == "fault");
+                if fired {
+                    out.keys.push(crate::rng::fnv64(format!("{}:{}:{}:{}", seed_r, op, nth, name).as_bytes()));
+                    out.stat(&format!("reach.fault_at_{}", kind), 1);
+                }
+                let failed_op = rr.incs[0].events.iter().any(|e| e.t == "ret" && e.op == Some(op) && e.res.as_ref().map(|r| r.k != "ok").unwrap_or(false));
+                if failed_op {
+                    out.stat("reach.append_failed_after_fault", 1);
+                }
+                let (fs, _) = judge_seq(&plan, &rr);
+                let facts = iofault_facts(&plan, &rr);
+                for f in relabel_c04(fs) {
+                    let mut f = f;
+                    for (k, v) in facts.iter() {
+                        f = f.fact(k, v.clone());
+                    }
+                    out.findings.push((plan.clone(), f));
+                }
+                let _ = name;
+                if !sampled && fired {
+                    let mut s = render_sample(&plan);
+                    s["profile"] = serde_json::json!("iofault");
+                    out.sample = Some(s);
+                    sampled = true;
+                }
+            }
+        }
+        out
+    }
+}
+
+impl Scenario for C04Scenario {
+    fn id(&self) -> &'static str {
+        "C04"
+    }
+    fn level(&self) -> &'static str {
+        "fault_enumeration"
+    }
+    fn rule_text(&self) -> String {
+        "three profiles chosen by seed. reject: histories in which every rejection cause (over 2000 entries, over the byte cap, oversized entry alone or inside a batch, topic name too long for the header, empty batch) is interleaved with successful operations, read back in the same process and after a clean restart. iofault: a workload is run fault-free to number the I/O events of its appends, then re-run with one injected failure per run at sampled events: failed directory/file creation, set_len, fsync/msync, directory fsync, failed io_uring submission, failed or short io_uring completion, failed pwrite; the rest of the workload and a restart follow. conc: concurrent readers polling while batches are appended (see C05's workload). oracle: an operation that returned an error leaves the reference model untouched and all later reads, counts and the reads after restart agree with the model; a reader never observes part of a batch; distinct = (plan, fault point, fault kind); non-trivial = an operation failed or a fault fired or client operations overlapped".into()
+    }
+    fn plan_for(&self, seed_r: u64) -> Option<Plan> {
+        match seed_r % 4 {
+            0 | 1 => c04_reject().plan_for(seed_r),
+            2 => Some(gen_seq(seed_r, &iofault_opts(seed_r))),
+            _ => Some(crate::conc::gen_conc(seed_r, "C04")),
+        }
+    }
+    fn run_one(&self, seed_r: u64, env: &Env) -> Outcome {
+        match seed_r % 4 {
+            0 | 1 => {
+                let mut o = c04_reject().run_one(seed_r, env);
+                o.stat("profile.reject", 1);
+                o
+            }
+            2 => {
+                let mut o = self.run_iofault(seed_r, env);
+                o.stat("profile.iofault", 1);
+                o
+            }
+            _ => {
+                let mut o = crate::conc::ConcScenario { id: "C04" }.run_one(seed_r, env);
+                o.stat("profile.conc", 1);
+                o
+            }
+        }
+    }
+    fn judge_plan(&self, plan: &Plan, env: &Env) -> (Vec<Finding>, u64) {
+        match plan.profile.as_str() {
+            "conc" => crate::conc::ConcScenario { id: "C04" }.judge_plan(plan, env),
+            "reject" => c04_reject().judge_plan(plan, env),
+            _ => {
+                let rr = run_plan(&env.bins, plan, &RunOpts::default());
+                let (fs, _) = judge_seq(plan, &rr);
+                let facts = iofault_facts(plan, &rr);
+                (
+                    relabel_c04(fs)
+                        .into_iter()
+                        .map(|mut f| {
+                            for (k, v) in facts.iter() {
+                                f = f.fact(k, v.clone());
+                            }
+                            f
+                        })
+                        .collect(),
+                    history_hash(&rr),
+                )
+            }
+        }
     }
 }
